@@ -43,7 +43,7 @@ RULE = ("Hypothesis-generated dataset (3 scalar features; clustered / uniform / 
         "is non-trivial when filtering is enabled, the filter excludes >= 1 "
         "poisoned event and selects >= 6 events; distinct = sha1 of the "
         "canonical JSON spec")
-BUDGET = {"quick": 1280, "thorough": 20000}
+BUDGET = {"quick": 3200, "thorough": 48000}
 ESSENTIAL = ["poisoned-excluded", "sel:6+", "sel:0", "sel:1-5",
              "filter:box", "filter:manual", "filter:invalid", "filter:limit",
              "filters-disabled", "fmt:hdf5", "selected-has-nonfinite",
@@ -179,7 +179,7 @@ def st_spec(draw):
         "data": draw(st_data()),
         "filter": draw(st_filter()),
         "poison": {"seed": draw(_seed),
-                   "frac": draw(st.sampled_from([0.0, 0.5, 1.0, 1.0])),
+                   "frac": draw(st.sampled_from([0.0, 0.3, 0.6, 1.0, 1.0, 1.0])),
                    "kinds": draw(st.lists(st.sampled_from(POISON), min_size=1,
                                           max_size=4, unique=True))},
         "stats": {"methods": draw(st.one_of(
@@ -715,8 +715,23 @@ def _run(spec, rec, d):
         A.close()
 
 
-def both(c, fa, fb, sig, rtol=1e-11):
-    """evaluate on A and B; -> value of A (or None if A raised)"""
+def degenerate(exs, eys):
+    """KDE input for which raising is accepted (the estimators / the grid are
+    undefined): < 3 valid events (jointly or per axis) or a zero range"""
+    exs = np.asarray(exs, dtype=float)
+    eys = np.asarray(eys, dtype=float)
+    fx, fy = _finite(exs), _finite(eys)
+    good = fx & fy
+    if good.sum() < 3 or fx.sum() < 3 or fy.sum() < 3:
+        return True
+    for a in (exs[good], eys[good], exs[fx], eys[fy]):
+        if a.max() == a.min():
+            return True
+    return False
+
+
+def both(c, fa, fb, sig, rtol=1e-11, may_raise=True):
+    """evaluate on A and B; -> values (or None, None if one raised)"""
     ra = _call(fa)
     rb = _call(fb)
     if ra[0] == "exc" or rb[0] == "exc":
@@ -726,6 +741,9 @@ def both(c, fa, fb, sig, rtol=1e-11):
                         lambda: f"filtered: {ra[2]} | selected-only: {rb[2]}")
             if ok:
                 c.rec.skip(f"both-raise:{sig.split('/')[0]}:{ra[1]}")
+                c.rec.check(may_raise, f"def/{sig}/raises-on-regular-input",
+                            lambda: f"{ra[2]} (>= 3 valid selected events, "
+                                    f"non-zero ranges)")
         else:
             c.rec.check(False, f"meta/{sig}/raises-on-one-side",
                         lambda: f"filtered: {ra[1:]} | selected-only: {rb[1:]}"[:900])
@@ -890,13 +908,13 @@ def q_scatter(c, q):
     if pos is not None:
         rec.cls("pos:explicit")
     kw = dict(xax=fx, yax=fy, kde_type=kde, xscale=q["xs"], yscale=q["ys"])
-    da, db = both(c, lambda: c.A.get_kde_scatter(positions=pos, **kw),
-                  lambda: c.B.get_kde_scatter(positions=pos, **kw),
-                  f"scatter/{kde}/{pk}")
-    if da is None:
-        return
     exs = scale_arr(c.selarrs[0], q["xs"])
     eys = scale_arr(c.selarrs[1], q["ys"])
+    da, db = both(c, lambda: c.A.get_kde_scatter(positions=pos, **kw),
+                  lambda: c.B.get_kde_scatter(positions=pos, **kw),
+                  f"scatter/{kde}/{pk}", may_raise=degenerate(exs, eys))
+    if da is None:
+        return
     if c.nsel == 0:
         rec.check(np.size(da) == 0, f"def/scatter/{kde}/none-selected",
                   lambda: f"no event selected but density has shape {np.shape(da)}")
@@ -915,7 +933,8 @@ def q_scatter(c, q):
     disc = f"{pk}/{_scl(q)}"
     if kde == "multivariate" and pos is not None and npos == 2:
         disc = "explicit/two-valid-positions"
-    elif kde == "multivariate" and pos is None and c.unsigned:
+    elif (kde == "multivariate" and pos is None and c.unsigned
+          and q["xs"] == q["ys"] == "linear"):
         disc = "own/unsigned-int-features"
     rec.check(ok, f"ref/scatter/{kde}/{disc}",
               lambda: f"get_kde_scatter({kde}, xscale={q['xs']}, yscale={q['ys']}, "
@@ -950,7 +969,8 @@ def q_contour(c, q):
     kw = dict(xax=fx, yax=fy, xacc=xacc, yacc=yacc, kde_type=kde,
               xscale=q["xs"], yscale=q["ys"])
     ra, rb = both(c, lambda: c.A.get_kde_contour(**kw),
-                  lambda: c.B.get_kde_contour(**kw), f"contour/{kde}/{ak}")
+                  lambda: c.B.get_kde_contour(**kw), f"contour/{kde}/{ak}",
+                  may_raise=degenerate(exs, eys))
     if ra is None:
         return
     X, Y, Z = (np.asarray(v) for v in ra)
@@ -1007,6 +1027,11 @@ def q_contour(c, q):
     if not (np.all(np.diff(xg) > 0) and np.all(np.diff(yg) > 0)):
         rec.skip("grid-not-ascending")
         return
+    for g in (xg, yg):
+        if float(g[-1] - g[0]) < 1e-5 * float(np.max(np.abs(g))):
+            # interpolation weights would lose > 5 digits
+            rec.skip("grid-range-tiny-vs-magnitude")
+            return
     _quantiles(c, q, xg, yg, X, Y, Z)
     _contour_lines(c, q, xg, yg, X, Y, Z)
 
@@ -1094,6 +1119,8 @@ def _contour_lines(c, q, xg, yg, X, Y, Z):
     if nchk == 0:
         rec.skip("contourline-no-vertex")
         return
+    _DEV["contourline"] = max(_DEV.get("contourline", 0.0),
+                              worst / (1e-9 * float(Z.max())))
     rec.check(worst <= 1e-9 * float(Z.max()), f"contourline/on-level/{ck}",
               lambda: f"contour vertices deviate from the iso-level {target!r} "
                       f"by {worst!r} (interpolated density, {nchk} vertices)")
@@ -1121,6 +1148,17 @@ def q_downsample(c, q):
     if ra[0] == "exc" or rb[0] == "exc":
         if ra[0] == rb[0] and ra[1] == rb[1]:
             rec.skip(f"both-raise:downsample:{ra[1]}")
+            # known to C16: more samples requested than valid events, or a
+            # constant feature; anything else is reported here
+            dxs = scale_arr(c.selarrs[0], q["xs"])
+            dys = scale_arr(c.selarrs[1], q["ys"])
+            good = _finite(dxs) & _finite(dys)
+            okr = (k > good.sum() or good.sum() == 0
+                   or dxs[good].max() == dxs[good].min()
+                   or dys[good].max() == dys[good].min())
+            rec.check(okr, f"def/downsample/{sc}/raises-on-regular-input",
+                      lambda: f"{ra[2]} (downsample={k}, {int(good.sum())} valid "
+                              f"selected events)")
         else:
             rec.check(False, f"meta/downsample/{sc}/raises-differently",
                       lambda: f"filtered: {ra[1:]} | selected-only: {rb[1:]}"[:900])
@@ -1141,6 +1179,22 @@ def q_downsample(c, q):
                   f"def/downsample/{sc}/points-are-masked-events",
                   lambda: f"returned points {np.asarray(xa)[:6].tolist()} are not "
                           f"ds[x][mask] {c.arrs[0][ma][:6].tolist()}")
+    if sc == "log" and c.nsel:
+        # "take the logarithm of the values before performing downsampling":
+        # same selection as linear downsampling of the log-transformed values
+        C = dclab.new_dataset({"userdef8": scale_arr(c.selarrs[0], q["xs"]),
+                               "userdef9": scale_arr(c.selarrs[1], q["ys"])})
+        C.apply_filter()
+        kwc = dict(kw, xax="userdef8", yax="userdef9", xscale="linear",
+                   yscale="linear")
+        rc = _call(lambda: C.get_downsampled_scatter(**kwc))
+        if rc[0] == "exc":
+            rec.check(False, "def/downsample/log/scaled-dataset-raises", rc[2])
+        else:
+            rec.check(bool(np.array_equal(np.asarray(rc[1][2]), np.asarray(mb))),
+                      "def/downsample/log/selection-in-log-space",
+                      "events kept with xscale/yscale='log' differ from the "
+                      "events kept by linear downsampling of the log values")
 
 
 # ---- tsv export
